@@ -44,7 +44,67 @@ enum OpCode : uint8_t
     O_ELEMENT_FROM_REF,
     O_PRIVATE_MUTATE,
     O_SHARED_ELEMENT,
+    O_ASSIGN_FROM_SHARED,  // thread-private objects are assigned FROM the shared const vector / element
     O_COUNT_
+};
+
+// Allocator whose state is NOT thread safe (a plain counter behind a pointer), but whose
+// select_on_container_copy_construction hands out an allocator without shared state - like a pmr allocator over an
+// unsynchronised resource, whose copies fall back to the (thread safe) default resource. Copying a shared container
+// concurrently is race free exactly if the copy goes through select_on_container_copy_construction.
+template <class T>
+struct RacyAlloc
+{
+    using value_type = T;
+    using propagate_on_container_copy_assignment = std::false_type;
+    using propagate_on_container_move_assignment = std::false_type;
+    using propagate_on_container_swap = std::false_type;
+    using is_always_equal = std::false_type;
+    template <class U>
+    struct rebind
+    {
+        using other = RacyAlloc<U>;
+    };
+    long* counter{nullptr};
+    RacyAlloc() = default;
+    explicit RacyAlloc(long* c) noexcept : counter(c) {}
+    template <class U>
+    RacyAlloc(const RacyAlloc<U>& o) noexcept : counter(o.counter)
+    {
+    }
+    T* allocate(std::size_t n)
+    {
+        if (counter) ++*counter;  // unsynchronised on purpose
+        return std::allocator<T>{}.allocate(n);
+    }
+    void deallocate(T* p, std::size_t n) noexcept
+    {
+        if (counter) ++*counter;
+        std::allocator<T>{}.deallocate(p, n);
+    }
+    RacyAlloc select_on_container_copy_construction() const noexcept { return RacyAlloc(nullptr); }
+    template <class U>
+    friend bool operator==(const RacyAlloc& a, const RacyAlloc<U>& b) noexcept
+    {
+        return a.counter == b.counter;
+    }
+    template <class U>
+    friend bool operator!=(const RacyAlloc& a, const RacyAlloc<U>& b) noexcept
+    {
+        return a.counter != b.counter;
+    }
+};
+inline long g_shared_allocator_state = 0;
+
+template <class Vec, class = void>
+struct MakeAlloc
+{
+    static typename Vec::allocator_type shared() { return typename Vec::allocator_type{}; }
+};
+template <class Vec>
+struct MakeAlloc<Vec, std::void_t<decltype(std::declval<typename Vec::allocator_type>().counter)>>
+{
+    static typename Vec::allocator_type shared() { return typename Vec::allocator_type(&g_shared_allocator_state); }
 };
 
 struct Entry
@@ -107,8 +167,9 @@ struct Runner
         v.emplace_back(pass<I>(args)...);
     }
 
-    static Vec build(uint32_t seed, std::size_t n, std::size_t cap, uint32_t fixed_seed)
+    static Vec build(uint32_t seed, std::size_t n, std::size_t cap, uint32_t fixed_seed, bool shared_state = false)
     {
+        const typename Vec::allocator_type alloc = shared_state ? MakeAlloc<Vec>::shared() : typename Vec::allocator_type{};
         std::array<std::size_t, (NF ? NF : 1)> fixed{};
         for (std::size_t i = 0; i < NF; ++i) fixed[i] = (fixed_seed >> (2 * i)) % 3 + (i == 0 ? 1 : 0);
         auto make = [&]
@@ -117,18 +178,18 @@ struct Runner
             {
                 std::array<std::size_t, NF> fs;
                 for (std::size_t i = 0; i < NF; ++i) fs[i] = fixed[i];
-                return Vec(cap, cap * 4 * 64, fs);
+                return Vec(cap, cap * 4 * 64, fs, alloc);
             }
             else if constexpr (NV > 0)
-                return Vec(cap, cap * 4 * 64);
+                return Vec(cap, cap * 4 * 64, alloc);
             else if constexpr (NF > 0)
             {
                 std::array<std::size_t, NF> fs;
                 for (std::size_t i = 0; i < NF; ++i) fs[i] = fixed[i];
-                return Vec(cap, fs);
+                return Vec(cap, fs, alloc);
             }
             else
-                return Vec(cap);
+                return Vec(cap, alloc);
         };
         Vec v = make();
         for (std::size_t e = 0; e < n; ++e) emplace(v, seed, e, fixed, Idx{});
@@ -294,6 +355,39 @@ struct Runner
                 }
                 break;
             }
+            case O_ASSIGN_FROM_SHARED:
+                if constexpr (LI::ALL_COPYABLE && LI::ALL_COPY_ASSIGNABLE)
+                {
+                    // private element and private vector, assigned from the shared const element / const references
+                    Elem mine(sh.elem);
+                    mine = sh.elem;
+                    h = digest_ref(mine, h, Idx{});
+                    if (!a.empty())
+                    {
+                        Elem other(a[0]);
+                        other = sh.elem;
+                        h = mix(h, (other == sh.elem) ? 1 : 0);
+                        if constexpr (LI::REF_ASSIGNABLE)
+                        {
+                            Vec p(a);
+                            // reference assignment needs equal field sizes (D7): all-fixed lists built with the same
+                            // fixed sizes qualify
+                            if (NV == 0 && p[0].size_in_bytes() == typename Vec::const_reference(sh.elem).size_in_bytes())
+                            {
+                                p[0] = sh.elem;  // reference = const element
+                                h = digest_ref(p[0], h, Idx{});
+                            }
+                            if (p.size() > 1 && p[1].size_in_bytes() == a[0].size_in_bytes() && NV == 0)
+                            {
+                                p[1] = a[0];  // reference = const_reference of the shared vector
+                                h = digest_ref(p[1], h, Idx{});
+                            }
+                        }
+                    }
+                }
+                else
+                    h = mix(h, a.size());
+                break;
         }
         return h;
     }
@@ -302,8 +396,8 @@ struct Runner
     {
         const std::size_t n = plan.seed % 6;
         const std::size_t cap = n + (plan.seed / 6) % 3;
-        Vec a = build(plan.seed, n, cap, plan.seed);
-        Vec b = build((plan.seed & 1) ? plan.seed : plan.seed + 1, (plan.seed / 18) % 5, 5, plan.seed);
+        Vec a = build(plan.seed, n, cap, plan.seed, true);
+        Vec b = build((plan.seed & 1) ? plan.seed : plan.seed + 1, (plan.seed / 18) % 5, 5, plan.seed, true);
         Vec donor = build(plan.seed + 3, 2, 2, plan.seed);
         Shared sh{std::move(a), std::move(b), Elem(std::move(donor[1])), plan.seed};
         const std::size_t T = plan.threads.size();
@@ -344,7 +438,7 @@ struct Runner
             bool mine[O_COUNT_]{};
             for (auto op : t) mine[op % O_COUNT_] = true;
             for (int k = 0; k < O_COUNT_; ++k) kinds_seen[k] += mine[k];
-            if (mine[O_COPY_VECTOR] || mine[O_ELEMENT_FROM_REF] || mine[O_PRIVATE_MUTATE]) copier = true;
+            if (mine[O_COPY_VECTOR] || mine[O_ELEMENT_FROM_REF] || mine[O_PRIVATE_MUTATE] || mine[O_ASSIGN_FROM_SHARED]) copier = true;
         }
         bool overlap = false;
         for (int k = 0; k < O_COUNT_; ++k) overlap = overlap || kinds_seen[k] >= 2;
